@@ -354,7 +354,8 @@ class SystemLoss:
     """abstract SystemLossODE / SystemLossPDE built through the repository's constructor"""
 
     def __init__(self, E, eq_type, net_kind='PINN', unknowns=('a', 'b'), equations=('e1', 'e2'), d=2, terms=('dyn', 'ic'),
-                 weights='scalar', eq_keys=('nu',), m_res=None, derivative_keys_dict=None, reverse_dicts=False, specs=None, wprefix='w'):
+                 weights='scalar', eq_keys=('nu',), m_res=None, derivative_keys_dict=None, reverse_dicts=False, specs=None, wprefix='w',
+                 dyn=None):
         """specs: {unknown: dict(m_u=.., bc_dim=.., obs_slice=..)} per-unknown output count, boundary component selection and
         observed slice (handed to the constructor as omega_boundary_dim_dict / obs_slice_dict)"""
         self.E, self.eq_type, self.net_kind, self.d = E, eq_type, net_kind, d
@@ -372,6 +373,8 @@ class SystemLoss:
         self.m_res = m_res or {e: 1 + (i % 2) for i, e in enumerate(equations)}
         self.dyn = {e: E.user_dynamic_loss(eq_type, self.m_res[e], name=f'R_{e}', multi=list(unknowns)) for e in equations} \
             if 'dyn' in self.terms else {}
+        if dyn is not None:
+            self.dyn = dict(dyn)            # dynamic losses supplied by the rule (e.g. with a heterogeneity map)
         sc = lambda n: to_at(K(n))
         if eq_type == 'ODE':
             names = ('dyn_loss', 'initial_condition', 'observations')
